@@ -1,6 +1,7 @@
 package checks
 
 import (
+	"bytes"
 	"crypto/sha256"
 	"encoding/hex"
 	"fmt"
@@ -86,7 +87,14 @@ func puritySession(g *gen.G, idx int) Sess {
 					o, outs = s.OutputDocuments()
 				} else {
 					var b []byte
-					o, b = s.Output(format)
+					if g.P(0.4) {
+						// the same through OutputToWriter
+						var buf bytes.Buffer
+						o = real.Guard(func() error { return s.P.OutputToWriter(&buf, format) })
+						b = buf.Bytes()
+					} else {
+						o, b = s.Output(format)
+					}
 					if o.OK {
 						h := sha256.Sum256(b)
 						sha = hex.EncodeToString(h[:])
